@@ -677,6 +677,7 @@ func genCase(layer string) func(t *rapid.T) routeCase {
 func props() []rp.Prop {
 	return []rp.Prop{
 		rp.P[routeCase]{Name: "hook-route", Checks: ev.Pick(60000, 6000000) / ev.Shards(), Gen: genCase("hook"), Check: check},
+		rp.P[manyCase]{Name: "every-ephemeral-source-port", Sweep: sweepMany, Check: checkMany},
 		rp.P[afterCase]{Name: "earlier-requests", Sweep: sweepAfter, Check: checkAfter},
 		rp.P[routeCase]{Name: "socket-route", Checks: ev.Pick(640, 24000) / ev.Shards(), Gen: genCase("socket"), Check: check},
 	}
